@@ -2235,7 +2235,10 @@ class AnsiStr(str):
 
     def clear_formatting(self) -> 'AnsiStr':
         ''' Returns a new AnsiStr object with all formatting cleared. '''
-        return AnsiStr(self.base_str)
+        # Clear a copy rather than building from base_str: the base string must not be parsed for ANSI directives again
+        cpy = self._s.copy()
+        cpy.clear_formatting()
+        return AnsiStr(cpy)
 
     def __iter__(self) -> 'AnsiStr':
         ''' Iterates over each character of this AnsiStr '''
